@@ -91,6 +91,14 @@ def main() -> int:
         print(f"HARNESS-ERROR: no unique check module for {pid}", file=sys.stderr)
         return 2
     mod = importlib.import_module("checks." + os.path.basename(mods[0])[:-3])
+    # scratch files of the units (served directories, cookie files, request bodies) live in a directory of this run and go
+    # with it: nothing is left behind under /tmp (workers are forked after this point and inherit the setting)
+    import shutil
+    import tempfile
+
+    run_tmp = tempfile.mkdtemp(prefix=f"verif_{pid}_")
+    tempfile.tempdir = run_tmp
+    os.environ["TMPDIR"] = run_tmp
     try:
         if a.replay:
             return runner.run_replay(mod, a.replay)
@@ -101,6 +109,9 @@ def main() -> int:
         traceback.print_exc()
         print(f"HARNESS-ERROR property={pid}", file=sys.stderr)
         return 2
+    finally:
+        tempfile.tempdir = None
+        shutil.rmtree(run_tmp, ignore_errors=True)
 
 
 if __name__ == "__main__":
